@@ -15,7 +15,7 @@ from .dflow import DCheck, one_violation
 PROFILE = {
     "max_stages": 7, "joins": ["AND", "AND", "DISCRIMINATOR", "N_OF_M", "OR"],
     "behaviours": {"ok": 10, "fail_terminal": 3, "fail_continue": 2, "poller": 2, "transient": 2, "exc": 2},
-    "synth_p": 0.3, "loop_p": 0.15, "or_split_p": 0.15, "cof_p": 0.2, "disabled_p": 0.08,
+    "synth_p": 0.3, "synth_fail_p": 0.3, "loop_p": 0.15, "or_split_p": 0.15, "cof_p": 0.2, "disabled_p": 0.08,
 }
 
 
@@ -26,7 +26,7 @@ def judge(prog: Any, ref: Any, run: dict[str, Any], info: dict[str, Any]) -> lis
     else:
         for q in check_quiescent(run["fs"]):
             problems.append((q["cls"], q["msg"], q["sig"].split(":", 1)[1]))
-    return one_violation("C05", problems, run["h"], prog=prog)
+    return one_violation("C05", problems, run["h"], prog=prog, fs=run["fs"])
 
 
 CHECK = DCheck("C05", PROFILE, judge, need_ref=False)
